@@ -166,6 +166,40 @@ pub open spec fn key_wf(m: Seq<(Value, Value)>) -> bool {
     && labels_distinct(m)
     && has_real_kty(m)
 }
+// ---- C12 (decode, error kind)
+pub open spec fn has_key_label(m: Seq<(Value, Value)>, n: int, l: Label) -> bool { exists |i: int| 0 <= i < n && #[trigger] label_of(m[i].0) == Some(l) }
+pub open spec fn key_dup_at(m: Seq<(Value, Value)>, n: int) -> bool {
+    0 <= n < m.len() && (forall |i: int| 0 <= i < n ==> #[trigger] key_pair_ok(m[i].0, m[i].1)) && labels_distinct(m.subrange(0, n))
+    && (label_of(m[n].0) matches Some(l) && has_key_label(m, n, l))
+}
+#[verifier::opaque]
+pub open spec fn key_no_dup(m: Seq<(Value, Value)>) -> bool { forall |n: int| !key_dup_at(m, n) }
+proof fn lemma_key_distinct_prefix_no_dup(m: Seq<(Value, Value)>, k: int, n: int)
+    requires 0 <= n < k <= m.len(), labels_distinct(m.subrange(0, k)),
+    ensures !key_dup_at(m, n),
+{
+    if label_of(m[n].0) is Some && has_key_label(m, n, label_of(m[n].0)->0) {
+        let i = choose |i: int| 0 <= i < n && #[trigger] label_of(m[i].0) == Some(label_of(m[n].0)->0);
+        assert(m.subrange(0, k)[i] == m[i] && m.subrange(0, k)[n] == m[n]);
+        assert(label_of(m.subrange(0, k)[i].0) != label_of(m.subrange(0, k)[n].0));
+    }
+}
+pub proof fn lemma_key_bad_pair_no_dup(m: Seq<(Value, Value)>, k: int)
+    requires 0 <= k < m.len(), labels_distinct(m.subrange(0, k)), label_of(m[k].0) matches Some(l) ==> !has_key_label(m, k, l),
+    ensures !key_pair_ok(m[k].0, m[k].1) ==> key_no_dup(m),
+{
+    reveal(key_no_dup);
+    if !key_pair_ok(m[k].0, m[k].1) {
+        assert forall |n: int| !key_dup_at(m, n) by { if 0 <= n < k { lemma_key_distinct_prefix_no_dup(m, k, n); } }
+    }
+}
+pub proof fn lemma_key_all_distinct_no_dup(m: Seq<(Value, Value)>)
+    requires labels_distinct(m.subrange(0, m.len() as int)),
+    ensures key_no_dup(m),
+{
+    reveal(key_no_dup);
+    assert forall |n: int| !key_dup_at(m, n) by { if 0 <= n < m.len() { lemma_key_distinct_prefix_no_dup(m, m.len() as int, n); } }
+}
 pub open spec fn is_typed_key_label(l: Label) -> bool {
     l == Label::Int(1) || l == Label::Int(2) || l == Label::Int(3) || l == Label::Int(4) || l == Label::Int(5)
 }
@@ -286,6 +320,7 @@ impl AsCborValue for CoseKey {«
             (!(value is Map) ==> r is Err)
             && (value matches Value::Map(mv) ==> (r is Ok <==> key_wf(mv@)))
             && (value matches Value::Map(mv) ==> (r matches Ok(key) ==> key.params@ == params_of(mv@) && key_fields_ok(key, mv@, mv@.len() as int)))
+            && (value matches Value::Map(mv) ==> (!key_no_dup(mv@) ==> (r matches Err(e) && e is DuplicateMapKey)))
     }
     open spec fn enc_rel(self, r: Result<Value>) -> bool {
         (r is Ok <==> key_params_ok(self))
@@ -315,6 +350,7 @@ impl AsCborValue for CoseKey {«
             proof {
                 assert(l == ms[n].0 && value == ms[n].1);
                 assert(key_wf(ms) ==> key_pair_ok(ms[n].0, ms[n].1));
+                if label_of(ms[n].0) is None { lemma_key_bad_pair_no_dup(ms, n); }
             }»
             // The `ciborium` CBOR library does not police duplicate map keys.
             // RFC 8152 section 14 requires that COSE does police duplicates, so do it here.
@@ -328,6 +364,7 @@ impl AsCborValue for CoseKey {«
                 }»
                 return Err(CoseError::DuplicateMapKey);
             }
+            «proof { assert(!has_key_label(ms, n, label)); lemma_key_bad_pair_no_dup(ms, n); }»
             seen.insert(label.clone());
             match label {
                 KTY => key.kty = KeyType::from_cbor_value(value)?,
@@ -394,7 +431,7 @@ impl AsCborValue for CoseKey {«
         }«
             }
         }
-        proof { assert(ms.subrange(0, ms.len() as int) =~= ms); }»
+        proof { lemma_key_all_distinct_no_dup(ms); assert(ms.subrange(0, ms.len() as int) =~= ms); }»
         // Check that key type has been set.
         if key.kty == KeyType::Assigned(iana::KeyType::Reserved) {«
             proof {
